@@ -1598,7 +1598,7 @@ func (c *Ctx) baseKey(v ssa.Value, depth int) string {
 // canon: the representative of v among the values of its function that are read from the same
 // unchanging location.
 func (c *Ctx) canon(v ssa.Value) ssa.Value {
-	if v == nil {
+	if v == nil || c == nil {
 		return v
 	}
 	k := c.memKey(v, 0)
